@@ -3,10 +3,10 @@
 # (development helper; the registered procedure applies to /repo itself, see DESIGN.md)
 set -u
 PATCH="$1"; ID="$2"; TIER="${3:-quick}"
-WT=/tmp/wt/mine
+WT=${TRYMUT_WT:-/tmp/wt/mine}
 git -C "$WT" checkout -q -- . && git -C "$WT" checkout -q --detach "$(git -C /repo rev-parse HEAD)" 2>/dev/null
 git -C "$WT" apply "$PATCH" || { echo "patch does not apply"; exit 3; }
-cd /verif && VERIF_EVIDENCE_DIR=/tmp/wt/evidence_scratch VERIF_REPO="$WT" ./vcheck "$ID" --tier "$TIER" 2>/dev/null | grep -v "^  " | head -${LINES_MAX:-15}
+cd /verif && VERIF_EVIDENCE_DIR=${TRYMUT_EV:-/tmp/wt/evidence_scratch} VERIF_REPO="$WT" ./vcheck "$ID" --tier "$TIER" 2>/dev/null | grep -v "^  " | head -${LINES_MAX:-15}
 rc=${PIPESTATUS[0]}
 git -C "$WT" checkout -q -- .
 echo "rc=$rc"
